@@ -860,6 +860,7 @@ func (ms *ModbusServer) startTLS(tcpSock net.Conn) (
 // If multiple or invalid role extensions are found, a nil string is returned (R-65, R-22).
 func (ms *ModbusServer) extractRole(cert *x509.Certificate) (role string) {
 	var err     error
+	var rest    []byte
 	var found   bool
 	var badCert bool
 
@@ -883,9 +884,16 @@ func (ms *ModbusServer) extractRole(cert *x509.Certificate) (role string) {
 			}
 
 			// extract the ASN1 string
-			_, err = asn1.Unmarshal(ext.Value, &role)
+			rest, err = asn1.Unmarshal(ext.Value, &role)
 			if err != nil {
 				ms.logger.Warningf("failed to decode Modbus Role extension: %v", err)
+				badCert = true
+				break
+			}
+
+			// the extension value must be the UTF8String and nothing else
+			if len(rest) != 0 {
+				ms.logger.Warning("trailing data after Modbus Role extension value")
 				badCert = true
 				break
 			}
